@@ -132,6 +132,32 @@ func (x *Exec) newOpaqueError(text string) Value {
 
 func stubErrorf(x *Exec, f *Closure, a []Value, cc *ssa.CallCommon) Value {
 	format := strArg(a[0])
+	if strings.Count(format, "%w") > 1 {
+		// several %w verbs (Go 1.20): *fmt.wrapErrors, whose Unwrap returns all wrapped errors in argument order
+		va := a[1].(Slice)
+		n := x.cint(va.Len, "Errorf nargs")
+		off := x.cint(va.Off, "Errorf off")
+		wt := x.eng.namedType("fmt", "wrapErrors")
+		if wt == nil {
+			x.unsupported("fmt.wrapErrors type not found")
+		}
+		var errs []Value
+		for i := 0; i < n; i++ {
+			if iv, ok := va.Arr.Kids[off+i].V.(Iface); ok && iv.T != nil && types.Implements(iv.T, errorIface) {
+				errs = append(errs, iv)
+			}
+		}
+		et := types.Universe.Lookup("error").Type()
+		arr := x.newArrayCell(et, len(errs))
+		for i, e := range errs {
+			arr.Kids[i].V = e
+		}
+		cell := x.newCell(wt)
+		cell.Kids[0].V = Str{S: format}
+		ln := x.i64(len(errs))
+		cell.Kids[1].V = Slice{Arr: arr, Off: x.i64(0), Len: ln, Cap: ln}
+		return Iface{T: types.NewPointer(wt), V: Ptr{C: cell}}
+	}
 	if strings.Contains(format, "%w") {
 		// wrap the (first) error argument
 		va := a[1].(Slice)
@@ -344,6 +370,61 @@ func (x *Exec) unwrapOnce(err Iface) (Iface, bool) {
 	return Iface{}, false
 }
 
+// unwrapMany handles errors whose Unwrap method returns []error (errors.Join, fmt.Errorf with several %w).
+func (x *Exec) unwrapMany(err Iface) ([]Iface, bool) {
+	if err.T == nil {
+		return nil, false
+	}
+	ms := x.eng.Prog.MethodSets.MethodSet(err.T)
+	for i := 0; i < ms.Len(); i++ {
+		sel := ms.At(i)
+		if sel.Obj().Name() != "Unwrap" {
+			continue
+		}
+		sig := sel.Type().(*types.Signature)
+		if sig.Params().Len() != 0 || sig.Results().Len() != 1 {
+			continue
+		}
+		if _, isSlice := sig.Results().At(0).Type().Underlying().(*types.Slice); !isSlice {
+			continue
+		}
+		fn := x.eng.Prog.MethodValue(sel)
+		r := x.callValue(&Closure{Fn: fn}, []Value{err.V}, nil).(Slice)
+		n := x.cint(r.Len, "Unwrap() []error len")
+		off := x.cint(r.Off, "Unwrap() []error off")
+		var out []Iface
+		for k := 0; k < n; k++ {
+			if iv, ok := r.Arr.Kids[off+k].V.(Iface); ok {
+				out = append(out, iv)
+			}
+		}
+		return out, true
+	}
+	return nil, false
+}
+
+// errTree lists the error and everything reachable from it through Unwrap, depth first in the order errors.Is/As
+// visit it.
+func (x *Exec) errTree(err Iface, depth int) []Iface {
+	if err.T == nil {
+		return nil
+	}
+	if depth > 16 {
+		x.unsupported("error chain too deep")
+	}
+	out := []Iface{err}
+	if many, ok := x.unwrapMany(err); ok {
+		for _, e := range many {
+			out = append(out, x.errTree(e, depth+1)...)
+		}
+		return out
+	}
+	if nxt, ok := x.unwrapOnce(err); ok && nxt.T != nil {
+		out = append(out, x.errTree(nxt, depth+1)...)
+	}
+	return out
+}
+
 func (x *Exec) hasIsMethod(t types.Type) bool {
 	ms := x.eng.Prog.MethodSets.MethodSet(t)
 	for i := 0; i < ms.Len(); i++ {
@@ -359,24 +440,18 @@ func stubErrorsIs(x *Exec, f *Closure, a []Value, cc *ssa.CallCommon) Value {
 	if err.T == nil || target.T == nil {
 		return x.ctx.BoolC(err.T == nil && target.T == nil)
 	}
-	for depth := 0; depth < 16; depth++ {
-		if types.Comparable(err.T) {
-			eq := x.valEq(err, target)
+	for _, e := range x.errTree(err, 0) {
+		if types.Comparable(e.T) {
+			eq := x.valEq(e, target)
 			if x.branch(eq) {
 				return x.ctx.True()
 			}
 		}
-		if x.hasIsMethod(err.T) {
-			x.unsupported("errors.Is on a type with an Is method (%v)", err.T)
+		if x.hasIsMethod(e.T) {
+			x.unsupported("errors.Is on a type with an Is method (%v)", e.T)
 		}
-		nxt, ok := x.unwrapOnce(err)
-		if !ok || nxt.T == nil {
-			return x.ctx.False()
-		}
-		err = nxt
 	}
-	x.unsupported("errors.Is chain too long")
-	return nil
+	return x.ctx.False()
 }
 
 func stubErrorsAs(x *Exec, f *Closure, a []Value, cc *ssa.CallCommon) Value {
@@ -390,21 +465,16 @@ func stubErrorsAs(x *Exec, f *Closure, a []Value, cc *ssa.CallCommon) Value {
 		x.goPanic("errors.As: target must be a non-nil pointer", nil)
 	}
 	want := pt.Elem()
-	for depth := 0; depth < 16 && err.T != nil; depth++ {
+	for _, e := range x.errTree(err, 0) {
 		if _, isIface := want.Underlying().(*types.Interface); isIface {
-			if types.Implements(err.T, want.Underlying().(*types.Interface)) {
-				x.store(tgt.V.(Ptr), err)
+			if types.Implements(e.T, want.Underlying().(*types.Interface)) {
+				x.store(tgt.V.(Ptr), e)
 				return x.ctx.True()
 			}
-		} else if types.Identical(err.T, want) {
-			x.store(tgt.V.(Ptr), err.V)
+		} else if types.Identical(e.T, want) {
+			x.store(tgt.V.(Ptr), e.V)
 			return x.ctx.True()
 		}
-		nxt, ok := x.unwrapOnce(err)
-		if !ok {
-			return x.ctx.False()
-		}
-		err = nxt
 	}
 	return x.ctx.False()
 }
@@ -442,6 +512,21 @@ func stubCRC16(x *Exec, f *Closure, a []Value, cc *ssa.CallCommon) Value {
 	var ins []*term.Term
 	for i := 0; i < n; i++ {
 		ins = append(ins, s.Arr.Kids[off+i].V.(*term.Term))
+	}
+	// functional consistency with the earlier abstracted uses of the same length (Ackermann's reduction): equal
+	// inputs give equal checksums. Without it two syntactically different but equal byte strings (a byte count
+	// recomputed from a length, say) would get unrelated values and every such path would need the exact re-run.
+	for _, u := range x.crcUses {
+		if len(u.in) != len(ins) || len(ins) == 0 {
+			continue
+		}
+		same := x.ctx.True()
+		for i := range ins {
+			same = x.ctx.And(same, x.ctx.Eq(u.in[i], ins[i]))
+		}
+		if !same.IsFalse() {
+			x.assume(x.ctx.Implies(same, x.ctx.Eq(u.out, v)))
+		}
 	}
 	x.crcUses = append(x.crcUses, crcUse{fn: f, in: ins, out: v})
 	return v
